@@ -311,6 +311,36 @@ def directed(recvs, by_name, k):
               {"ident": "Thin", "style": "struct", "fields": [F("note", O(L("String"))), F("more", Rv(deep), flatten=True)]},
               {"ident": "Off", "style": "unit"}])
     add_enum([{"ident": "Only", "style": "struct", "fields": [F("every", Rv(mode_holder), flatten=True)]}], auk=True, rule="SCREAMING_SNAKE_CASE")
+    # two options on ONE field, every valid pair, at a struct level and inside a struct variant
+    def pairs_fields():
+        return [F("p01", L("i64"), default=["explicit", "d_list"], multiple=True),
+                F("p02", L("String"), default=["explicit", "d_hello"], post=[False, "m_bang"]),
+                F("p03", L("i64"), default=["explicit", "d_seven"], rename="p_three"),
+                F("p04", L("i64"), default=["explicit", "d_seven"], skip=True),
+                F("p05", L("i64"), default=["explicit", "d_seven"], **{"with": "w_len"}),
+                F("p06", L("String"), default=["trait"], post=[True, "a_nonempty"]),
+                F("p07", L("String"), default=["trait"], post=[False, "m_bang"]),
+                F("p08", L("i64"), default=["trait"], **{"with": "w_len"}),
+                F("p09", L("String"), multiple=True, post=[True, "a_nonempty"]),
+                F("p10", L("u8"), multiple=True, skip=True),
+                F("p11", L("i64"), multiple=True, **{"with": "w_len"}),
+                F("p12", L("String"), post=[True, "a_nonempty"], rename="p_twelve"),
+                F("p13", L("String"), post=[True, "a_nonempty"], skip=True),
+                F("p14", L("i64"), post=[True, "a_small"], **{"with": "w_len"}),
+                F("p15", L("bool"), post=[False, "m_not"], skip=True),
+                F("p16", L("i64"), post=[False, "m_inc"], **{"with": "w_len"}),
+                F("p17", L("u8"), rename="p_seventeen", skip=True),
+                F("p18", L("i64"), rename="p_eighteen", **{"with": "w_len"}),
+                F("p19", L("i64"), skip=True, **{"with": "w_fail"}),
+                F("p20", L("String"), default=["explicit", "d_hello"], post=[True, "a_nonempty"]),
+                F("p21", L("bool"), multiple=True, post=[False, "m_not"]),
+                F("p22", L("String"), post=[False, "m_bang"], rename="p_twentytwo")]
+    add_struct(pairs_fields() + [F("rest", Rv(mode_holder), flatten=True, post=[False, "cm_id"])])
+    add_struct([F("solo", O(L("u8"))), F("rest", Rv(mode_holder), flatten=True, post=[True, "ca_ok"], default=["trait"])])
+    add_struct([F("solo", O(L("u8"))), F("rest", Rv(deep), flatten=True, default=["trait"], post=[True, "ca_fail"])])
+    add_enum([{"ident": "Pairs", "style": "struct", "fields": pairs_fields()},
+              {"ident": "Flat", "style": "struct", "fields": [F("solo", O(L("u8"))), F("rest", Rv(mode_holder), flatten=True, default=["trait"], post=[False, "cm_id"])]},
+              {"ident": "Flat2", "style": "struct", "fields": [F("rest", Rv(deep), flatten=True, default=["trait"], post=[True, "ca_fail"])]}])
     # newtype receivers under every container-level post-transform (the generated from_meta of a newtype has its own shape)
     for post in (None, [False, "cm_id"], [True, "ca_ok"], [True, "ca_fail"]):
         for inner in (L("u8"), O(L("String")), Rv(deep)):
@@ -533,6 +563,8 @@ def render_rust(recvs, seed):
            "pub fn m_bang(s: String) -> String { s + \"!\" }", "pub fn m_not(b: bool) -> bool { !b }",
            "pub fn a_nonempty(s: String) -> darling::Result<String> { if s.is_empty() { Err(darling::Error::custom(\"empty\")) } else { Ok(s) } }",
            "pub fn d_seven() -> i64 { 7 }", "pub fn d_hello() -> String { \"hello\".to_string() }",
+           "pub fn d_list() -> Vec<i64> { vec![7, 8] }", "pub fn m_inc(x: i64) -> i64 { x + 1 }",
+           "pub fn a_small(x: i64) -> darling::Result<i64> { if x < 4 { Ok(x) } else { Err(darling::Error::custom(\"big\")) } }",
            "pub fn cm_id<T>(t: T) -> T { t }", "pub fn ca_ok<T>(t: T) -> darling::Result<T> { Ok(t) }",
            "pub fn ca_fail<T>(_t: T) -> darling::Result<T> { Err(darling::Error::custom(\"ca_fail\")) }", ""]
     consts = {}
